@@ -13,6 +13,7 @@
 #include "parsec/maxheap.h"
 
 #include <stdlib.h>
+#include <string.h>
 
 static inline int hiBit(unsigned int n)
 {
@@ -24,9 +25,28 @@ static inline int hiBit(unsigned int n)
     return n - (n >> 1);
 }
 
+/*
+ * Heaps travel through the bounded buffers of the ltq scheduler, where
+ * parsec_hbbuffer_pop_best() reads the priority of a candidate heap before it
+ * owns it (optimistic read, as it does for tasks that come from type-stable
+ * mempools). An emptied heap must therefore never go back to the allocator
+ * while another stream may still look at it: recycle it through a type-stable
+ * free list instead of calling free().
+ */
+static parsec_atomic_lock_t heap_recycle_lock = PARSEC_ATOMIC_UNLOCKED;
+static parsec_heap_t *heap_recycle_list = NULL;
+
 parsec_heap_t* heap_create(void)
 {
-    parsec_heap_t* heap = calloc(1, sizeof(parsec_heap_t));
+    parsec_heap_t* heap;
+
+    parsec_atomic_lock(&heap_recycle_lock);
+    if( NULL != (heap = heap_recycle_list) )
+        heap_recycle_list = (parsec_heap_t*)heap->list_item.list_next;
+    parsec_atomic_unlock(&heap_recycle_lock);
+    if( NULL == heap )
+        heap = (parsec_heap_t*)malloc(sizeof(parsec_heap_t));
+    memset(heap, 0, sizeof(parsec_heap_t));
     /* Point back to the parent structure */
     heap->list_item.list_next = (parsec_list_item_t*)heap;
     heap->list_item.list_prev = (parsec_list_item_t*)heap;
@@ -36,7 +56,10 @@ parsec_heap_t* heap_create(void)
 void heap_destroy(parsec_heap_t** heap)
 {
     assert((*heap)->top == NULL);
-    free(*heap);
+    parsec_atomic_lock(&heap_recycle_lock);
+    (*heap)->list_item.list_next = (parsec_list_item_t*)heap_recycle_list;
+    heap_recycle_list = *heap;
+    parsec_atomic_unlock(&heap_recycle_lock);
     (*heap) = NULL;
 }
 
